@@ -15,12 +15,13 @@ type BashCase struct {
 	Prog  *Program
 	Stdin string
 	// NonTrivial decides whether the case counts towards distinct_nontrivial.
-	NonTrivial func(r Result) bool
-	PreFiles   map[string]string // files present in the sandbox (and the model file system) before the run
-	PreDirs    []string
-	CheckFS    bool // compare the complete sandbox file system with the model afterwards
-	AppHook    func(stages [][]string, fs map[string][]byte) (string, int)
-	Tools      map[string]string // extra executables to install in the sandbox (name -> absolute source path)
+	NonTrivial  func(r Result) bool
+	PreFiles    map[string]string // files present in the sandbox (and the model file system) before the run
+	PreDirs     []string
+	CheckFS     bool // compare the complete sandbox file system with the model afterwards
+	AppHook     func(stages [][]string, fs map[string][]byte) (string, int)
+	Tools       map[string]string // extra executables to install in the sandbox (name -> absolute source path)
+	PathSandbox bool              // put the sandbox directory first in PATH
 }
 
 type caseOutcome int
@@ -111,11 +112,16 @@ func judgeBash(c *Check, bc BashCase) caseOutcome {
 	}
 	ignore := []string{}
 	for n, src := range bc.Tools {
-		b, _ := os.ReadFile(src)
-		os.WriteFile(filepath.Join(run, n), b, 0o755)
-		ignore = append(ignore, n)
+		// a symlink, not a copy: writing an executable while other goroutines fork would race into ETXTBSY
+		os.MkdirAll(filepath.Dir(filepath.Join(run, n)), 0o755)
+		os.Symlink(src, filepath.Join(run, n))
+		ignore = append(ignore, filepath.Clean(n))
 	}
-	rr := RunBash(run, tr.Script, RunOpts{Stdin: bc.Stdin, Timeout: 6 * time.Second, Snap: bc.CheckFS, Ignore: ignore})
+	ro := RunOpts{Stdin: bc.Stdin, Timeout: 6 * time.Second, Snap: bc.CheckFS, Ignore: ignore}
+	if bc.PathSandbox {
+		ro.Path = run + ":/usr/bin:/bin"
+	}
+	rr := RunBash(run, tr.Script, ro)
 	if rr.TimedOut || rr.Capped {
 		// decide on logical steps, not on wall time; confirm at most a few per run
 		if c.bumpNonterm() > 8 {
